@@ -6,12 +6,13 @@ over per-path buffers).  EVERY write sequence up to the bound x every limiter se
 plan: EMFILE budgets, every placement of <=2 transient open failures (deviation bound 2, placements
 discovered from the execution itself), permanent failure of one path.
 """
+import errno
 import itertools
 
 from mc.faults import MemStore, LogicalClock, gunzip_all_members
 
 ID = 'C19'
-RULE = ('all words over P paths up to length n x maxHandles x pruneEvery x fault plan (none; EMFILE when >=k descriptors open, '
+RULE = ('all words over P paths up to length n x maxHandles x pruneEvery x fault plan (none; EMFILE (also ENFILE) when >=k descriptors open, '
         'k=1..3; every set of <=2 failing open() calls; one permanently failing path); both methods (gzip / plain); '
         'non-trivial = an injected failure was hit while >=1 other descriptor was open; states = distinct executions')
 ASSUMPTIONS = [
@@ -156,9 +157,15 @@ def plans_for(word, maxHandles, pruneEvery, method, acc_cb):
         plan1 = {'fail_calls': [i]}
         v1, info1 = execute(word, maxHandles, pruneEvery, plan1, method)
         acc_cb(plan1, v1, info1)
+        # the same transient failure reported as the system-wide variant of "too many open files" (ENFILE)
+        plan1b = {'fail_calls': [i], 'errno': errno.ENFILE}
+        acc_cb(plan1b, *execute(word, maxHandles, pruneEvery, plan1b, method))
         for j in range(i + 1, info1['opens']):
             plan2 = {'fail_calls': [i, j]}
             acc_cb(plan2, *execute(word, maxHandles, pruneEvery, plan2, method))
+    # a descriptor budget enforced system wide: ENFILE instead of EMFILE
+    plan = {'emfile_k': 2, 'errno': errno.ENFILE}
+    acc_cb(plan, *execute(word, maxHandles, pruneEvery, plan, method))
 
 
 def _norm_plan(plan):
